@@ -423,12 +423,16 @@ def standard_proof_stage(ctx: Ctx, targets, prop_module, theorems, search_fn=Non
 
 def eval_bool_cases(ctx: Ctx, header: str, cases, shard_size=400, name="cases", timeout=600):
     """cases: list of Gallina terms of type bool (closed under `header`).  Evaluates them inside Coq
-    (vm_compute) in parallel shards; returns (failing_indices, error_text_or_None)."""
+    (vm_compute) in parallel shards; returns (failing_indices, error_text_or_None).
+    Every shard ends with a deliberate `false` sentinel that must be reported back, so a shard whose output
+    cannot be parsed (or an evaluation that silently reports nothing) fails closed."""
     shards = []
+    sizes = []
     for k in range(0, len(cases), shard_size):
         chunk = cases[k:k + shard_size]
-        text = header + "\nFrom FR Require Import CaseLib.\n"
-        text += "Definition the_cases : list bool :=\n [ " + "\n ; ".join(chunk) + " ].\n"
+        sizes.append(len(chunk))
+        text = header + "\nFrom Coq Require Import NArith List.\nFrom FR Require Import CaseLib.\n"
+        text += "Definition the_cases : list bool :=\n [ " + "\n ; ".join(list(chunk) + ["false"]) + " ].\n"
         text += 'Goal True. idtac "@@failing". exact I. Qed.\nEval vm_compute in (failing the_cases).\n'
         shards.append(("%s_%04d" % (name, k // shard_size), text))
     res = run_case_shards(ctx.work, shards, timeout=timeout)
@@ -438,5 +442,7 @@ def eval_bool_cases(ctx: Ctx, header: str, cases, shard_size=400, name="cases", 
         lst = parse_nat_list(out) if rc == 0 else None
         if lst is None:
             return None, "shard %s failed (rc=%s): %s" % (nm, rc, out[-1500:])
-        failing.extend(k * shard_size + i for i in lst)
+        if sizes[k] not in lst:
+            return None, "shard %s: the sentinel false case was not reported (unparseable output?): %s" % (nm, out[-600:])
+        failing.extend(k * shard_size + i for i in lst if i != sizes[k])
     return failing, None
